@@ -290,7 +290,7 @@ Proof. intros Hok Hex. rewrite (compute_minmax_full_spec m nprops Hok). unfold c
 
 (* ================================================================== the coordinates hypothesis along back-fill and upcast *)
 Lemma prop_exact_upcast p : prop_exact (upcast_prop p) = prop_exact p.
-Proof. unfold upcast_prop, prop_exact. destruct (p_vals p) as [a|l] eqn:Ev; cbn [p_vals]; [|rewrite Ev; reflexivity].
+Proof. unfold upcast_prop, prop_exact. destruct (p_vals p) as [a|l] eqn:Ev; cbn [p_vals]; [|reflexivity].
   unfold upcast_arr. destruct (dtype_eqb (a_dt a) DF16) eqn:E; [|reflexivity].
   apply dtype_eqb_eq in E. cbn [a_dt a_flat]. rewrite E. reflexivity. Qed.
 
@@ -929,7 +929,7 @@ Proof. intros Hinv Hfin H. unfold MetaJson.inv_md in Hinv.
   pose proof (coords_transfer prop_finite g m ps) as Hc. rewrite Ea in Hc. cbn [olistA] in Hc.
   eapply (mapM_forallb_pres _ _ MetaJson.axis_ok MetaJson.axis_ok); [|apply Hc|exact Hax|exact Hm].
   - intros x y Hx Hox Hy. eapply minmax_axis_full_ok; [|exact Hox|exact Hy]. exact Hx.
-  - intros p. unfold prop_finite, upcast_prop. destruct (p_vals p) as [a|l] eqn:Evp; cbn [p_vals]; [|rewrite Evp; reflexivity].
+  - intros p. unfold prop_finite, upcast_prop. destruct (p_vals p) as [a|l] eqn:Evp; cbn [p_vals]; [|reflexivity].
     unfold upcast_arr. destruct (dtype_eqb (a_dt a) DF16) eqn:E; [|reflexivity]. apply dtype_eqb_eq in E. cbn [a_dt a_flat]. rewrite E. reflexivity.
   - reflexivity.
   - exact Hfin.
@@ -987,7 +987,7 @@ Proof. intros Hnn Hax H. unfold minmax_axis_full in H.
   split; intro E; inversion E; subst; [apply Hl | apply Hh]; reflexivity. Qed.
 
 Lemma prop_nan_free_upcast p : prop_nan_free (upcast_prop p) = prop_nan_free p.
-Proof. unfold prop_nan_free, upcast_prop. destruct (p_vals p) as [a|l] eqn:Evp; cbn [p_vals]; [|rewrite Evp; reflexivity].
+Proof. unfold prop_nan_free, upcast_prop. destruct (p_vals p) as [a|l] eqn:Evp; cbn [p_vals]; [|reflexivity].
   unfold upcast_arr. destruct (dtype_eqb (a_dt a) DF16) eqn:E; [|reflexivity]. apply dtype_eqb_eq in E. cbn [a_dt a_flat]. rewrite E. reflexivity. Qed.
 
 (* with no NaN among the coordinates the property's own invariant (min <= max) is preserved *)
